@@ -104,7 +104,8 @@ ExpDownload(s, d, f) ==
        ELSE IF z.size > 4 THEN Refuse(s, d, idx, sub, A_ANY)           \* s = 0 to an object larger than 4 bytes
        ELSE IF ob.kind = "app" THEN Refuse(s, d, idx, sub, ob.abort)
        ELSE IF ob.kind = "str" THEN Refuse(s, d, idx, sub, A_ANY)
-       ELSE R(Idle, [DropTransfer(s, d) EXCEPT ![g.p] = Written(ob, SubSeq(f, 5, 4 + z.size))],
+       \* (if this request replaces an open download of the same object, the tail is what that transfer left: unknown)
+       ELSE R(Idle, [DropTransfer(s, d) EXCEPT ![g.p] = Written(@, SubSeq(f, 5, 4 + z.size))],
               << <<96, f[2], f[3], f[4], -1, -1, -1, -1>> >>, "det")
 
 ExpUpload(s, d, f) ==
